@@ -50,6 +50,13 @@ theorem u_curve_is_subset_mean (y : ℕ → ℝ) (n N : ℕ) (hn : 1 ≤ n) (hN 
 theorem v_weights_sum_one (pw : ℝ → ℝ) (N : ℕ) (hN : 0 < N) (h0 : pw 0 = 0) (h1 : pw 1 = 1) :
     (vWeights pw N).sum = 1 := vWeights_sum pw N hN h0 h1
 
+/-- the `k` smallest observations carry V-weight `(k/N)^n`: the V-statistic weights are the law with cdf `F^n`, the same law
+the average curve integrates against (`average_weights_telescope_max`), so `v_tuning_curve = average_tuning_curve` for
+unweighted samples (ties included: a tied block's weights telescope). The equality of the two *sums* is additionally checked
+exactly in ℚ on every sample of the correspondence run. -/
+theorem v_weights_are_law_of_max (pw : ℝ → ℝ) (N k : ℕ) (hk : k ≤ N) :
+    ((vWeights pw N).take k).sum = pw ((k : ℝ) / (N : ℝ)) - pw 0 := vWeights_prefix pw N k hk
+
 /-- **naive curve** = best of the first `min(n,N)` observations in the given order. -/
 theorem naive_is_running_max {E : Type} [LinearOrder E] (n : ℕ) (y : E) (ys : List E) :
     naive false n (y :: ys) = some ((ys.take (n - 1)).foldl max y) := naive_max n y ys
